@@ -39,7 +39,6 @@ ANCHORS = [
 INF = float("inf")
 BUILD = VERIF / ".rust-build"
 SO_NAME = "_solvor_rust.cpython-312-x86_64-linux-gnu.so"
-PENDING_PR = "C12-pagerank-stop-rule"  # kernel defect being fixed: sum|delta| < tol (rust) vs max|delta| < tol (python)
 
 FNS = ["floyd_warshall", "bellman_ford", "dijkstra_edges", "bfs_edges", "dfs_edges", "kruskal", "pagerank_edges",
        "strongly_connected_components_edges", "topological_sort_edges"]
@@ -188,7 +187,7 @@ def call(case, backend):
 def call_str(case, backend="<b>"):
     c = case
     e = [tuple(x) for x in c["edges"]]
-    b = "" if backend is None else f", backend={backend!r}"
+    b = "" if backend in (None, "<b>") else f", backend={backend!r}"
     fn = c["fn"]
     if fn == "floyd_warshall":
         return f"floyd_warshall({c['n']}, {e}, directed={c['directed']}{b})"
@@ -238,6 +237,81 @@ def observe(case, backend):
 
 def run_case(case):
     return {b: observe(case, {"python": "python", "rust": "rust", "default": None}[b]) for b in ("python", "rust", "default")}
+
+
+# A native kernel that loops forever holds the main thread outside the interpreter (SIGALRM handlers do not run), a Rust
+# panic surfaces as a BaseException and an allocation failure aborts the process: all implementation runs therefore
+# happen in forked children that the parent can kill; a hang / crash becomes an outcome of that case.
+def _in_child(fn, *args, timeout=12.0):
+    """Run fn(*args) in a forked child; -> ('ok', value) | ('hang',) | ('crash', detail)."""
+    import multiprocessing as mp
+    import resource
+    import signal
+
+    rd, wr = mp.Pipe(duplex=False)
+    pid = os.fork()
+    if pid == 0:
+        code = 0
+        try:
+            rd.close()
+            resource.setrlimit(resource.RLIMIT_AS, (4 << 30, 4 << 30))
+            try:
+                wr.send(("ok", fn(*args)))
+            except BaseException as e:  # noqa: BLE001  (pyo3 PanicException is a BaseException)
+                wr.send(("crash", f"{type(e).__name__}: {str(e)[:200]}"))
+            wr.close()
+        except BaseException:  # noqa: BLE001
+            code = 3
+        finally:
+            os._exit(code)
+    wr.close()
+    try:
+        if rd.poll(timeout):
+            try:
+                return rd.recv()
+            except EOFError:
+                return ("crash", "child process died (abort / out of memory / signal)")
+        return ("hang",)
+    finally:
+        try:
+            os.kill(pid, signal.SIGKILL)
+        except ProcessLookupError:
+            pass
+        os.waitpid(pid, 0)
+        rd.close()
+
+
+def run_case_isolated(case):
+    """Each back-end in its own child (used for shrinking and for cases that killed a batch)."""
+    outs = {}
+    for b in ("python", "rust", "default"):
+        r = _in_child(observe, case, {"python": "python", "rust": "rust", "default": None}[b], timeout=8.0)
+        outs[b] = r[1] if r[0] == "ok" else (("hang",) if r[0] == "hang" else ("exc", "Crash", r[1]))
+    return outs
+
+
+def _batch(cases):
+    out = []
+    for c in cases:
+        try:
+            out.append(run_case(c))
+        except BaseException as e:  # noqa: BLE001
+            out.append(None)
+            break
+    return out
+
+
+def run_cases(cases, chunk=60):
+    """run_case over all cases, in forked children of `chunk` cases; a chunk that hangs / dies is redone case by case."""
+    results = []
+    for k in range(0, len(cases), chunk):
+        part = cases[k:k + chunk]
+        r = _in_child(_batch, part, timeout=10.0 + 1.0 * len(part))
+        if r[0] == "ok" and len(r[1]) == len(part) and all(x is not None for x in r[1]):
+            results += r[1]
+        else:
+            results += [run_case_isolated(c) for c in part]
+    return results
 
 
 # ====================================================================== independent oracles
@@ -345,26 +419,33 @@ def is_forest_of(n, tree, edges):
     return True
 
 
-def pr_exact(n, edges, damping, max_iter):
-    """Exact-rational power iteration (independent of both back-ends' code): list of (scores, max diff) per sweep."""
-    d = Fraction(damping)
+def pr_reference(n, edges, damping, max_iter):
+    """Independent power iteration (neither back-end's code): list of (scores, max |delta|) per sweep.
+    Exact rationals when max_iter <= 40 (denominators stay small enough), plain floats otherwise."""
+    exact = max_iter <= 40
+    F = Fraction if exact else float
+    d = F(damping)
     out = [0] * n
     inc = [[] for _ in range(n)]
     for u, v in edges:
         out[u] += 1
         inc[v].append(u)
-    s = [Fraction(1, n)] * n
+    s = [F(1) / n] * n
     res = []
     for _ in range(max_iter):
-        dang = sum((s[i] for i in range(n) if out[i] == 0), Fraction(0))
-        new = [(1 - d) / n + d * sum((s[u] / out[u] for u in inc[v]), Fraction(0)) + d * dang / n for v in range(n)]
-        res.append((new, max(abs(a - b) for a, b in zip(new, s)), sum(abs(a - b) for a, b in zip(new, s))))
+        dang = sum((s[i] for i in range(n) if out[i] == 0), F(0))
+        new = [(1 - d) / n + d * sum((s[u] / out[u] for u in inc[v]), F(0)) + d * dang / n for v in range(n)]
+        md = max(abs(a - b) for a, b in zip(new, s))
+        res.append((new, md))
         s = new
-    return res
+        if not exact and md == 0:
+            res += [(new, md)] * (max_iter - len(res))
+            break
+    return res, exact
 
 
 def judge(case, outs):
-    """-> list of (kind, message).  kind 'viol' = property violated; 'pending-pr' = the pending pagerank kernel class."""
+    """-> list of (kind, message).  kind 'viol' = property violated."""
     fn = case["fn"]
     n = case["n"]
     edges = [tuple(e) for e in case["edges"]]
@@ -518,54 +599,52 @@ def judge(case, outs):
                     bad(f"{b}: objective {o['objective']} expected {n}")
     elif fn == "pagerank_edges":
         tol, mi = case["tol"], case["max_iter"]
-        ex = pr_exact(n, edges, case["damping"], mi)
+        ex, exact_ref = pr_reference(n, edges, case["damping"], mi)
+        eps = 1e-9
         scores = {}
         for b, o in trio:
             sol = o["solution"].get("dict") if isinstance(o["solution"], dict) else None
             if sol is None or [k for k, _ in sol] != list(range(n)):
                 bad(f"{b}: keys {sol}")
                 return probs
-            scores[b] = [v for _, v in sol]
+            scores[b] = [num(v) for _, v in sol]
             it = o["iterations"]
             if not (0 <= it <= mi) or (it == 0 and mi > 0):
                 bad(f"{b}: iterations {it} outside 1..{mi}")
                 return probs
-            want = ex[it - 1][0] if it >= 1 else [Fraction(1, n)] * n
-            if any(abs(Fraction(x) - w) > Fraction(1, 10 ** 9) for x, w in zip(scores[b], want)):
+            want = ex[it - 1][0] if it >= 1 else [1 / n] * n
+            if any(abs(x - float(w)) > eps for x, w in zip(scores[b], want)):
                 bad(f"{b}: scores {scores[b]} are not sweep {it} of the power iteration {[float(w) for w in want]}")
                 return probs
-        # default = rust
         if D["status"] != R["status"] or any(abs(x - y) > 1e-12 for x, y in zip(scores["default"], scores["rust"])):
             bad(f"default ({D['status']}, {scores['default']}) differs from rust ({R['status']}, {scores['rust']})")
-        # the stopping rule (max |delta| < tol) decides the status; skip when the exact run is too close to the threshold
-        first = next((k + 1 for k, (_, md, _) in enumerate(ex) if md < Fraction(tol)), None)
-        margin_ok = all(abs(md - Fraction(tol)) > Fraction(tol) / 10 ** 6 for _, md, _ in ex)
-        case["_pr_first"] = first
-        case["_pr_margin_ok"] = margin_ok
+        # the stopping rule (max |delta| < tol) decides the status; not judged when the reference run is too close to the threshold
+        first = next((k + 1 for k, (_, md) in enumerate(ex) if md < tol), None)
+        rel = 1e-6 if exact_ref else 1e-3
+        margin_ok = all(abs(float(md) - tol) > tol * rel for _, md in ex)
+        ctx_margin = "safe" if margin_ok else "near-threshold"
+        case["_pr_margin"] = ctx_margin
         if margin_ok:
-            want_status, want_it = ("OPTIMAL", first) if first is not None else ("MAX_ITER", mi)
-            if (P["status"], P["iterations"]) != (want_status, want_it):
-                bad(f"python: status/iterations {P['status']}/{P['iterations']} expected {want_status}/{want_it} (max|delta| < tol rule)")
-            if (R["status"], R["iterations"]) != (want_status, want_it):
-                # pending kernel defect: rust stops on sum|delta| < tol
-                first_sum = next((k + 1 for k, (_, _, sd) in enumerate(ex) if sd < Fraction(tol)), None)
-                sum_status, sum_it = ("OPTIMAL", first_sum) if first_sum is not None else ("MAX_ITER", mi)
-                near = max(abs(x - y) for x, y in zip(scores["python"], scores["rust"])) <= 10 * tol if n else True
-                if (R["status"], R["iterations"]) == (sum_status, sum_it) and near:
-                    probs.append(("pending-pr", f"{call_str(case)}: python {P['status']} after {P['iterations']}, rust {R['status']} after {R['iterations']} "
-                                                f"(rust stops on sum|delta| < tol); scores agree within 10*tol"))
-                else:
-                    bad(f"rust: status/iterations {R['status']}/{R['iterations']} expected {want_status}/{want_it}; scores py={scores['python']} rs={scores['rust']}")
-        elif P["status"] != R["status"]:
-            near = max(abs(x - y) for x, y in zip(scores["python"], scores["rust"])) <= 10 * tol if n else True
-            probs.append(("pending-pr" if near else "viol", f"{call_str(case)}: status python={P['status']} rust={R['status']} (near the threshold)"))
+            want_status = "OPTIMAL" if first is not None else "MAX_ITER"
+            for b, o in trio:
+                if o["status"] != want_status:
+                    bad(f"{b}: status {o['status']} (after {o['iterations']} sweeps) expected {want_status}"
+                        + (f" after {first}" if first else "") + f" by the max|delta| < tol rule; python={P['status']}/{P['iterations']} rust={R['status']}/{R['iterations']}")
+                    break
         if P["status"] == R["status"] == "OPTIMAL" and any(abs(x - y) > max(1e-6, 10 * tol) for x, y in zip(scores["python"], scores["rust"])):
             bad(f"converged scores differ by more than the tolerance: py={scores['python']} rs={scores['rust']}")
+        if P["status"] != R["status"] and not probs:
+            near = max((abs(x - y) for x, y in zip(scores["python"], scores["rust"])), default=0) <= 10 * tol
+            if not (near and not margin_ok):
+                bad(f"status python={P['status']} rust={R['status']}")
 
     # ---- direct differential on what the property calls "identical"
     if fn in ("floyd_warshall", "bfs_edges", "dfs_edges", "strongly_connected_components_edges", "topological_sort_edges", "kruskal",
               "bellman_ford", "dijkstra_edges") and not probs:
         for b, o in (("rust", R), ("default", D)):
+            # a DFS path is only required to be a valid path: its length (the objective) may differ between back-ends
+            if fn == "dfs_edges" and case["target"] is not None:
+                continue
             if not eqnum(o["objective"], P["objective"]):
                 bad(f"objective {b}={o['objective']} python={P['objective']}")
     return probs
@@ -883,7 +962,7 @@ def clean(case):
 
 
 def fails(case):
-    outs = run_case(case)
+    outs = run_case_isolated(case)
     return any(k == "viol" for k, _ in judge(dict(case), outs))
 
 
@@ -923,15 +1002,14 @@ def run(ctx: Ctx):
     ctx.notes.append("rust dijkstra: BinaryHeap tie-breaking among equal costs is not modelled; its path is checked as a walk of the reported weight, not literally")
 
     big = ctx.tier == "thorough"
-    per_fn = ctx.budget(45, 1500)
+    per_fn = ctx.budget(140, 1500)
     cases = _corpus() + [dict(c) for c in FIXED]
     for fn in FNS:
         cases += [gen_case(ctx.rng, fn, big) for _ in range(per_fn)]
 
     results = []
-    pending_hits = []
-    for case in cases:
-        outs = run_case(case)
+    all_outs = run_cases(cases)
+    for case, outs in zip(cases, all_outs):
         ctx.evaluations += 3
         fn = case["fn"]
         probs = judge(case, outs)
@@ -940,13 +1018,10 @@ def run(ctx: Ctx):
         if outs["python"][0] == "ok":
             ctx.count(f"status_{fn}", outs["python"][1]["status"])
         viol = [m for k, m in probs if k == "viol"]
-        pend = [m for k, m in probs if k == "pending-pr"]
         if viol:
             small = shrink(clean(case), fails) if len(case["edges"]) <= 40 else clean(case)
             ctx.violation(viol[0] if small == clean(case) else f"{viol[0]}  [shrunk to {call_str(small)}]",
-                          {"case": small, "original": clean(case), "outs": run_case(small)})
-        if pend:
-            pending_hits.append((case, pend[0]))
+                          {"case": small, "original": clean(case), "outs": run_case_isolated(small)})
         if len(case["edges"]) >= 2 and outs["python"][0] == "ok":
             o = outs["python"][1]
             nt = (o["solution"] is not None) if case.get("target") is not None else True
@@ -955,16 +1030,6 @@ def run(ctx: Ctx):
         ctx.sample({"call": call_str(case), "python": outs["python"][1] if outs["python"][0] == "ok" else outs["python"],
                     "rust": outs["rust"][1] if outs["rust"][0] == "ok" else outs["rust"]}, 4)
         results.append((case, outs, bool(viol)))
-
-    if pending_hits:
-        case, msg = pending_hits[0]
-        opens = [f for f in ctx.open_findings() if "pagerank" in (f.get("class", "") + f.get("id", "")).lower()]
-        fid = opens[0]["id"] if opens else PENDING_PR
-        ctx.known_hit(fid, f"{len(pending_hits)} case(s); first: {msg}")
-        ctx.count("pending_pagerank_stop_rule", "hit", len(pending_hits))
-        if not opens:
-            ctx.notes.append("pending kernel fix (coordinator's instruction): pagerank status/iterations differ between back-ends while scores agree within 10*tol; "
-                             "no open known_findings.json entry yet - reported under the built-in id " + PENDING_PR)
 
     # ---- correspondence, kernel-checked, one lemma family per function: (python model ~ backend='python') && (rust model ~ backend='rust')
     disagree = []
@@ -999,16 +1064,14 @@ def run(ctx: Ctx):
         found = False
         fns = sorted({d[0] for d in disagree}) or FNS
         budget = 6000 if not big else 20000
-        for k in range(budget):
-            fn = fns[k % len(fns)]
-            case = gen_case(ctx.rng, fn, True)
-            outs = run_case(case)
+        extra = [gen_case(ctx.rng, fns[k % len(fns)], True) for k in range(budget)]
+        for case, outs in zip(extra, run_cases(extra, chunk=500)):
             ctx.evaluations += 3
             viol = [m for kd, m in judge(case, outs) if kd == "viol"]
             if viol:
                 small = shrink(clean(case), fails)
                 ctx.violation(f"{viol[0]}  [found by search after a broken correspondence/proof; shrunk to {call_str(small)}]",
-                              {"case": small, "original": clean(case), "outs": run_case(small)})
+                              {"case": small, "original": clean(case), "outs": run_case_isolated(small)})
                 found = True
                 break
         if not found:
@@ -1025,12 +1088,12 @@ def replay(obj):
     info = setup()
     print("extension:", info.get("mode"), info.get("ext_file"))
     case = dict(case, edges=[tuple(e) for e in case["edges"]])
-    outs = run_case(case)
+    outs = run_case_isolated(case)
     for b in ("python", "rust", "default"):
         print(f"{call_str(case, None if b == 'default' else b)} ->", outs[b])
     probs = judge(case, outs)
     for k, m in probs:
-        print(("VIOLATES: " if k == "viol" else "PENDING CLASS: ") + m)
+        print("VIOLATES: " + m)
     if not probs:
         print("oracle verdict: ok")
     return 1 if any(k == "viol" for k, _ in probs) else 0
